@@ -479,6 +479,15 @@ func drvCgo(r *rand.Rand, n int) [][]Action {
 		if r.Intn(4) == 0 {
 			h = append(h, Action{A: "ImportName", P: "C", N: []string{"c", "cgo"}[r.Intn(2)]})
 		}
+		if r.Intn(4) == 0 {
+			// another import claims / is aliased to the name C and is used first: "C" itself must stay C
+			if r.Intn(2) == 0 {
+				h = append(h, Action{A: "ImportName", P: "example.com/lib/c", N: "C"})
+			} else {
+				h = append(h, Action{A: "ImportAlias", P: "example.com/lib/c", N: "C"})
+			}
+			h = append(h, Action{A: "Add", Tree: varQ("example.com/lib/c", st.sym("example.com/lib/c"))})
+		}
 		anonC := r.Intn(3) == 0
 		if anonC {
 			h = append(h, Action{A: "Anon", P: "C"})
